@@ -10,13 +10,21 @@ def showIds (l : List (Event Nat)) : String := String.intercalate "," (l.map (fu
 
 def showEvs (l : List (Event Nat)) : String := String.intercalate "," (l.map (fun e => s!"{e.id}:{e.body}"))
 
+/-- ids of the list, compressed when they are consecutive (they always are unless the model is wrong) -/
+def showList (l : List (Event Nat)) : String :=
+  match l with
+  | [] => "[]"
+  | e :: _ =>
+    let ids := l.map (·.id)
+    if ids == List.range' e.id l.length then s!"[{e.id}..{e.id + l.length - 1}]" else s!"[{showIds l}]"
+
 def dump (q : Q) : String :=
   let cur := match q.dangling with
     | some e => s!"dangling:{e.id}"
     | none => match q.rest with
       | [] => "nil"
       | e :: _ => s!"at:{e.id}"
-  s!"l=[{showIds q.items}] cur={cur} nid={q.nextID} closed={if q.closed then 1 else 0}"
+  s!"l={showList q.items} cur={cur} nid={q.nextID} closed={if q.closed then 1 else 0}"
 
 def step (q : Q) (line : String) : Q × String :=
   match words line with
